@@ -64,6 +64,10 @@ def world():
     w['session_value'] = lambda s: s.value.val
     w['session_is_none'] = lambda s: z3.Or(zbool(s.absent), s.value.isnone)
     w['unchanged'] = lambda s: z3.BoolVal(s.writes == 0)
+    for nm in ('ast_day', 'ast_sec', 'ast_usec', 'pos_day', 'pos_sec', 'pos_usec', 'pos_h', 'pos_m', 'pos_s', 'now_us', 'depth', 'ts', 'sd'):
+        w[nm] = z3.Int(nm)
+    w['drops_are'] = drops_are
+    w['empty_list'] = lambda x: z3.BoolVal(isinstance(x, Quoted) and len(x.items) == 0)
     w['__bases__'] = {'LiveMedia': ['MediaRequestBase'], 'MediaRequestBase': ['RequestHandlerBase']}
     return w
 
@@ -137,6 +141,87 @@ RST_INLINE = Contract(key=f'{BASE}:RequestHandlerBase.reset_error_counter', vari
 INCREMENT.applies = RESET.applies = lambda frame: False
 
 
+# ----------------------------------------------------------------------------- error positions in a manifest's URLs
+MCX = 'dashlive/server/requesthandler/manifest_context.py'
+
+
+class Quoted:
+    """urllib.parse.quote_plus(','.join(drops)): remembered as the list of f-strings that were joined"""
+
+    def __init__(self, items):
+        self.items = items
+
+
+def quote_plus(eng, e, a, kw):
+    j = a[0]
+    if j == '':
+        return Quoted([])
+    return Quoted(list(getattr(j, 'parts', getattr(j, 'items', [j]))))
+
+
+def drops_are(x, *parts):
+    """the result lists exactly one item whose text is built from these pieces"""
+    from pyvc.models.strings import FString
+    if not isinstance(x, Quoted) or len(x.items) != 1:
+        return z3.BoolVal(False)
+    it = x.items[0]
+    got = it.parts if isinstance(it, FString) else [it]
+    if len(got) != len(parts):
+        return z3.BoolVal(False)
+    conj = []
+    for g, p in zip(got, parts):
+        if isinstance(g, str) or isinstance(p, str):
+            if not (isinstance(g, str) and isinstance(p, str) and g == p):
+                return z3.BoolVal(False)
+        else:
+            conj.append(zint(g) == zint(p))
+    return z3.And(*conj) if conj else z3.BoolVal(True)
+
+
+class ClockDT(DT):
+    """a datetime given by day number, hour, minute, second, microsecond"""
+    __slots__ = ('hms',)
+
+    def __init__(self, day, h, m, s, usec):
+        sod = 3600 * h + 60 * m + s
+        super().__init__(86400 * 10**6 * day + 10**6 * sod + usec, (day, sod, usec))
+        self.hms = (h, m, s)
+
+
+def injected(kind, with_code):
+    def env(w):
+        ast_, c1 = DT.decomposed('ast')
+        pos_t = ClockDT(w['pos_day'], w['pos_h'], w['pos_m'], w['pos_s'], w['pos_usec'])
+        c2 = z3.And(0 <= w['pos_h'], w['pos_h'] < 24, 0 <= w['pos_m'], w['pos_m'] < 60, 0 <= w['pos_s'], w['pos_s'] < 60,
+                    0 <= w['pos_usec'], w['pos_usec'] < 10**6, w['pos_sec'] == 3600 * w['pos_h'] + 60 * w['pos_m'] + w['pos_s'])
+        pos = w['pos'] if kind == 'number' else pos_t
+        return {'errors': PyList([(w['code'] if with_code else None, pos)]), 'now': DT(z3.Int('now_us')),
+                'availabilityStartTime': ast_, 'timeShiftBufferDepth': z3.Int('depth'),
+                'representation': Obj('Representation', {'timescale': z3.Int('ts'), 'segment_duration': z3.Int('sd')}),
+                '__facts__': z3.And(c1, c2)}
+    # the requested wall-clock time on the availability start day, in microseconds since availabilityStartTime
+    seg = '(ts * (pos_sec - ast_sec)) // sd' if kind == 'time' else 'pos'
+    listed = ('True' if kind == 'number' else
+              '(86400000000 * ast_day + 1000000 * pos_sec + ast_usec >= now_us - 1000000 * depth)')
+    text = ("drops_are(result, code, '=', {seg})" if with_code else "drops_are(result, {seg})").format(seg=seg)
+    return Contract(
+        key=f'{MCX}:ManifestContext.calculate_injected_error_segments', variant=f'{kind}{"" if with_code else "-nocode"}',
+        props=['C16'], env=env,
+        requires=[('parts', '__facts__'), ('rep', 'ts >= 1 and sd >= 1'), ('depth', 'depth >= 0'),
+                  # region: the requested time of day is not before the availability start's time of day
+                  ('region_not_before_start', 'True' if kind == 'number' else 'pos_sec >= ast_sec')],
+        models={'urllib.parse.quote_plus': quote_plus},
+        ensures=[('listed', f'({text}) if {listed} else empty_list(result)')],
+        canaries=['empty_list(result)'],
+        witness_terms=lambda w: (lambda ev: {k: ev(z3.Int(k)) for k in ('code', 'pos', 'ast_day', 'ast_sec', 'ast_usec', 'pos_day',
+                                                                         'pos_sec', 'pos_usec', 'pos_h', 'pos_m', 'pos_s', 'now_us', 'depth', 'ts', 'sd')}),
+    )
+
+
+INJECTED = [injected('number', True), injected('time', True), injected('time', False)]
+SCALE_INLINE = Contract(key='dashlive/utils/date_time.py:scale_timedelta', props=[], inline=True)
+
+
 def lemma_fires_failure_count_times(w):
     """History: starting from a cleared counter, a 5xx error addressed to a segment fires on requests 1..fc for that
     segment, request fc+1 is served and clears the counter (then the cycle restarts) - by induction over the single-call
@@ -150,7 +235,7 @@ def lemma_fires_failure_count_times(w):
 
 
 GROUP = Group(
-    name='errors', world=world, contracts=[INCREMENT, RESET] + SYNTH + [INC_INLINE, RST_INLINE],
+    name='errors', world=world, contracts=[INCREMENT, RESET] + SYNTH + INJECTED + [INC_INLINE, RST_INLINE, SCALE_INLINE],
     lemmas=[Lemma('fires_failure_count_times', ['C16'], lemma_fires_failure_count_times)],
     assumptions=[
         'C16: flask.session is a mapping; only the one key the call builds (error-<usage>-<code>) is read or written; '
